@@ -83,9 +83,15 @@ fn to_coq(t: &BT) -> String {
         BT::Bin(k, a, c) => format!("(EBin {} {} {})", ["Add", "Sub", "Mul", "Div"][*k as usize], to_coq(a), to_coq(c)), BT::Neg(x) => format!("(EUn Neg {})", to_coq(x)),
     }
 }
-fn build(c: &Case) -> (ModelBuilder, Vec<Var>) {
+fn build(c: &Case) -> (ModelBuilder, Vec<Var>) { build_with(c, false) }
+/// `pin_unused`: declared-but-unused Real / NonNegativeReal variables with an infinite bound are declared `Real(0, 0)` instead
+/// (nothing else changes) - used only to attribute a disagreement to finding F19b
+fn build_with(c: &Case, pin_unused: bool) -> (ModelBuilder, Vec<Var>) {
     let mut mb = ModelBuilder::new();
-    let vars: Vec<Var> = c.decls.iter().map(|d| mb.add_var(d.name.clone(), vt(d))).collect();
+    let used = used_in(c);
+    let vars: Vec<Var> = c.decls.iter().enumerate().map(|(j, d)| { let t = vt(d);
+        let t = if pin_unused && !used[j] { match t { VariableType::Real(l, h) | VariableType::NonNegativeReal(l, h) if l.is_infinite() || h.is_infinite() => VariableType::Real(0.0, 0.0), other => other } } else { t };
+        mb.add_var(d.name.clone(), t) }).collect();
     let cons: Vec<BuilderConstraint> = c.cons.iter().map(|k| if k.assertion { BuilderConstraint::new_logic_assertion(to_builder(&k.lhs, &vars), k.name.clone()) } else { BuilderConstraint::new(to_builder(&k.lhs, &vars), cmp(k.cmp), to_builder(&k.rhs, &vars), k.name.clone()) }).collect();
     let obj = |m: ModelBuilder| match c.dir { 0 => m.minimize(to_builder(&c.obj, &vars)), 1 => m.maximize(to_builder(&c.obj, &vars)), 2 => m.satisfy(), _ => m };
     // order of builder calls: objective first / last / in the middle, with() one by one or with_all()
@@ -237,12 +243,13 @@ fn main() {
                 let text = v["text"].as_str().unwrap().to_string();
                 let text_only = v["case"].is_null();
                 let c: Case = if text_only { Case { decls: vec![], cons: vec![], dir: 2, obj: BT::Num(0.0), order: 0, extra: vec![] } } else { serde_json::from_value(v["case"].clone()).unwrap() };
-                for k in 0..3 {
+                for k in 0..4 {
                     if i == start_i && k < start_k { continue; }
+                    if text_only && k == 3 { let mut o = out.lock(); writeln!(o, "R {} 3 {}", i, json!({"status":"n/a"})).unwrap(); o.flush().unwrap(); continue; }
                     if text_only && k == 0 { let mut o = out.lock(); writeln!(o, "R {} 0 {}", i, json!({"status":"n/a"})).unwrap(); o.flush().unwrap(); continue; }
                     { let mut o = out.lock(); writeln!(o, "S {} {}", i, k).unwrap(); o.flush().unwrap(); }
                     let res = std::panic::catch_unwind(|| match k {
-                        0 => { let (mb, vars) = build(&c);
+                        0 | 3 => { let (mb, vars) = build_with(&c, k == 3);
                             match mb.solve_with(rooc::Auto) {
                                 Ok(s) => { let names: Vec<String> = c.decls.iter().map(|d| d.name.clone()).collect();
                                     let by_handle: Vec<Value> = vars.iter().map(|h| json!(s.numeric_value(*h))).collect();
